@@ -74,6 +74,10 @@ class Conn:
                 except BaseException as e:  # what handler_thread would catch and log
                     self.exceptions.append(("service", repr(e)))
                 progressed = True
+            if not progressed and getattr(self, "take", 0) and not self.sock.closed and self.sock.room == 0 and getattr(ch, "total_outbufs_len", 0) > 0:
+                # a slow reader: takes a few more bytes each time the server has nothing else to do
+                self.sock.room += self.take
+                progressed = True
             if not progressed:
                 break
         return n
